@@ -49,6 +49,7 @@ try:
         res["demo_changed_tail"] = r1.stdout[-600:]
     subprocess.run("cd %s/python && rm -rf build *.so" % wt, shell=True)
     # private copy of /verif (sources + compiled .vo so that nothing is rebuilt needlessly)
+    os.makedirs(priv + "/verif", exist_ok=True)
     subprocess.run(["rsync", "-a", "--exclude", ".git", "--exclude", "replays", "--exclude", "seeded", HERE + "/", priv + "/verif/"], check=True)
     res["checks"] = {}
     for p in props:
